@@ -111,6 +111,12 @@ fn observed(c: &Config, which: usize, only: Option<(usize, usize, usize)>) -> Do
     }
     let mut d = Document::new("obs", item);
     d.imports = c.imports.iter().map(|i| Import::new(IMPORTS[*i])).collect();
+    // size dimension: every fourth configuration carries 20 more (unrelated) imports
+    if (c.imports.iter().sum::<usize>() + c.decls + c.foo_kind) % 4 == 3 {
+        for k in 0..20 {
+            d.imports.insert(k % (d.imports.len() + 1), Import::new(&format!("pad.k{}.Pad{k}", k % 3)));
+        }
+    }
     for (i, n) in DECLS.iter().enumerate() {
         if c.decls & (1 << i) != 0 {
             d.decls.push(Decl::new(n));
